@@ -174,7 +174,7 @@ def module_text(path):
 TRACE_CFG = "INIT TraceInit\nNEXT TraceNext\nCHECK_DEADLOCK FALSE\nPOSTCONDITION TraceAccepted\n"
 
 
-def validate_events(trace_module, events, *, name, parallel=16, chunk=None, timeout=1800, xmx="2g"):
+def validate_events(trace_module, events, *, name, parallel=16, chunk=None, timeout=1800, xmx="2g", shared=None):
     """Batch trace validation: `events` (list of dicts, each with an integer 'id') are written as
     ndjson chunks; each chunk is consumed by one TLC run of spec/trace/<trace_module>.tla (workers 1).
     Returns (fails, stats): fails = list of {"id":…, "clause":…, …} printed by the trace spec for
@@ -187,6 +187,17 @@ def validate_events(trace_module, events, *, name, parallel=16, chunk=None, time
     text = module_text(os.path.join("trace", trace_module + ".tla"))
     jobs = []
     dirs = []
+    shared_env = {}
+    if shared:
+        # shared tables (e.g. TEXTS_FILE): one ndjson file used by every chunk
+        sd = mkscratch("trs")
+        dirs.append(sd)
+        for var, rows in shared.items():
+            fn = os.path.join(sd, var + ".ndjson")
+            with open(fn, "w") as f:
+                for row in rows:
+                    f.write(json.dumps(row, sort_keys=True) + "\n")
+            shared_env[var] = fn
     for k in range(0, n, chunk):
         part = events[k:k + chunk]
         d = mkscratch("tr")
@@ -196,7 +207,7 @@ def validate_events(trace_module, events, *, name, parallel=16, chunk=None, time
             for e in part:
                 f.write(json.dumps(e, sort_keys=True) + "\n")
         jobs.append(dict(root_module_text=text, cfg_text=TRACE_CFG, name=trace_module, workers=1,
-                         env={"TRACE_FILE": tf}, timeout=timeout, xmx=xmx))
+                         env=dict(shared_env, TRACE_FILE=tf), timeout=timeout, xmx=xmx))
     try:
         results = run_many(jobs, parallel)
     finally:
